@@ -8,7 +8,7 @@ from vlib import Failure
 WORKLOADS = {
     'C02': dict(quick=[('generic', 14, 60, 4000), ('names', 10, 60, 4000), ('bigfile', 8, 40, 6000)],
                 thorough=[('generic', 300, 300, 4000), ('names', 200, 300, 4000), ('bigfile', 100, 150, 12000), ('generic', 100, 200, 40000)]),
-    'C04': dict(quick=[('names', 12, 60, 4000), ('recycle', 8, 50, 4000), ('generic', 8, 60, 2200)],
+    'C04': dict(quick=[('names', 12, 60, 4000), ('recycle', 8, 50, 4000), ('generic', 8, 60, 2200), ('fail', 10, 70, 1600)],
                 thorough=[('names', 200, 300, 4000), ('recycle', 150, 200, 4000), ('generic', 150, 300, 2200), ('bigfile', 60, 150, 12000)]),
     'C05': dict(quick=[('reclaim', 12, 60, 4000), ('reclaim', 6, 40, 9000)],
                 thorough=[('reclaim', 250, 200, 4000), ('reclaim', 60, 120, 9000), ('names', 100, 200, 2200)]),
@@ -16,8 +16,9 @@ WORKLOADS = {
     'C13': dict(quick=[('paging', 3, 1, 4000)], thorough=[('paging', 24, 1, 4000)]),
     'C19': dict(quick=[('limits', 1, 1, 30000), ('limits', 1, 1, 70000)], thorough=[('limits', 3, 1, 30000), ('limits', 2, 1, 70000), ('limits', 1, 1, 140000)]),
     'C08': dict(quick=[('stale', 16, 70, 4000)], thorough=[('stale', 300, 300, 4000), ('names', 100, 300, 4000)]),
-    'C09': dict(quick=[('fail', 10, 60, 1600), ('fail', 8, 60, 1570), ('fail', 6, 50, 2100)],
+    'C09': dict(quick=[('fail', 8, 60, 1600), ('fail', 6, 60, 1570), ('fail', 4, 50, 2100)],
                 thorough=[('fail', 150, 200, 1600), ('fail', 100, 200, 1570), ('fail', 100, 200, 2100), ('fail', 60, 200, 1545)]),
+    'C10': dict(quick=[('twin', 10, 60, 4000), ('manyobj', 3, 220, 6000)], thorough=[('twin', 200, 200, 4000), ('manyobj', 30, 400, 6000), ('fail', 60, 120, 1600)]),
     'C12': dict(quick=[('recycle', 16, 60, 4000), ('recycle', 6, 60, 1700)],
                 thorough=[('recycle', 300, 250, 4000), ('recycle', 150, 250, 1700), ('bigfile', 80, 150, 12000)]),
 }
